@@ -31,6 +31,10 @@ class VFileHistory:
                             "bounded": "%s history, additions of %s bytes with save/re-open after each" % (kind, lens)})
             out.append({"id": "history/%s/same-names" % kind, "k": "history", "kind": kind, "lens": [3, 4, 5, 6], "names": ["AA", "BB", "AA", "BB"],
                         "bounded": "%s history re-using file names" % kind})
+            # files of every kind (binary, tokenised BASIC, ASCII BASIC, data): an image is rebuilt from what the reader returned
+            # on every append, so a field the reader gets wrong is lost on the SECOND save
+            out.append({"id": "history/%s/kinds" % kind, "k": "history", "kind": kind, "lens": [300, 40, 255, 10, 2],
+                        "kinds": [(2, 0), (0, 0xFF), (2, 0), (1, 0xFF), (0, 0)], "bounded": "%s history with BASIC / ASCII / data files" % kind})
         for shape in ("cas-small", "cas-161280", "cas-big-zero", "cas-big-ff", "cas-big-mixed", "dsk-one", "dsk-empty"):
             out.append({"id": "sniff/%s" % shape, "k": "sniff", "shape": shape, "bounded": "one concrete image"})
         return out
@@ -105,7 +109,10 @@ class VFileHistory:
                 data = [(11 * i + 3 * j + (i >> 8)) % 256 for i in range(L)]
             name = cell["names"][j] if cell.get("names") else "FILE%d" % j
             load, exe = 0x1000 + j, 0x2000 + j
-            f = F.coco_file(name, 2, 0, load, exe, list(data), extension="BIN")
+            ftype, dtype = cell["kinds"][j] if cell.get("kinds") else (2, 0)
+            if ftype != 2 and kind == "dsk":
+                load, exe = 0, 0                # a disk keeps addresses for binary files only
+            f = F.coco_file(name, ftype, dtype, load, exe, list(data), extension="BIN")
             try:
                 self._session(env, F, store, path, kind, f, native)
             except Raised as e:
@@ -116,7 +123,7 @@ class VFileHistory:
                          ("C09",) if e.cls in ("VirtualFileValidationError", "FileExistsError") else ("C13", "C09"),
                          sig("step%d-raised:%s" % (j, e.cls)))
                 return
-            wants.append((name, 2, load, exe, data))
+            wants.append((name, ftype, load, exe, data, dtype))
             img = store.get(path)
             if img is None:
                 env.fail("C09:history", ("C09",), sig("step%d-no-file" % j))
@@ -124,9 +131,9 @@ class VFileHistory:
             # structure bytes are concrete (lengths concrete); contents symbolic
             try:
                 if kind == "cas":
-                    got = [(x["name"].strip(), x["ftype"], x["load"], x["exec"], x["data"]) for x in tape.parse_stream(img)]
+                    got = [(x["name"].strip(), x["ftype"], x["load"], x["exec"], x["data"], x["dtype"]) for x in tape.parse_stream(img)]
                 else:
-                    got = [(x["name"].strip(), x["ftype"], x["load"], x["exec"], x["data"]) for x in db.files(img)]
+                    got = [(x["name"].strip(), x["ftype"], x["load"] or 0, x["exec"] or 0, x["data"], x["ascii"]) for x in db.files(img)]
             except (tape.TapeFormatError, db.DiskFormatError) as e:
                 import re
                 env.fail("C09:history", ("C09",), sig("step%d-image-malformed:%s" % (j, re.sub(r"\d+", "N", str(e)))))
@@ -136,7 +143,7 @@ class VFileHistory:
                 return
             ok = True
             for g, w in zip(got, wants):
-                if g[0].upper() != w[0].upper() or g[1] != w[1] or len(g[4]) != len(w[4]):
+                if g[0].upper() != w[0].upper() or g[1] != w[1] or len(g[4]) != len(w[4]) or g[5] != w[5]:
                     ok = False
                     break
                 ok = ok & (g[2] == w[2]) & (g[3] == w[3])
